@@ -93,7 +93,14 @@ type transport struct {
 	RespCL   string `json:"response_content_length"` // "" | honest | small
 	ReqGzip  bool   `json:"request_gzip,omitempty"`
 	RespGzip bool   `json:"response_gzip,omitempty"`
+	// ReqCT / RespCT: the declared media type of the JSON body ("" = application/json, "-" = no content-type header)
+	ReqCT  string `json:"request_content_type,omitempty"`
+	RespCT string `json:"response_content_type,omitempty"`
 }
+
+// media types JSON bodies are sent with
+var jsonMediaTypes = []string{"", "", "application/json; charset=utf-8", "application/problem+json", "application/vnd.api+json",
+	"application/hal+json", "application/x-amz-json-1.1", "Application/JSON", "text/json", "text/plain", "application/octet-stream", "-"}
 
 var plainTransport = transport{MaxSize: 1 << 30}
 
@@ -104,7 +111,8 @@ func genTransport(t *rapid.T) transport {
 	cl := []string{"", "", "honest", "small"}
 	return transport{MaxSize: rapid.SampledFrom([]int{1 << 30, 4096, 256, 48}).Draw(t, "max-size"),
 		ReqCL: rapid.SampledFrom(cl).Draw(t, "req-cl"), RespCL: rapid.SampledFrom(cl).Draw(t, "resp-cl"),
-		ReqGzip: chance(t, "req-gzip", 1, 4), RespGzip: chance(t, "resp-gzip", 1, 4)}
+		ReqGzip: chance(t, "req-gzip", 1, 4), RespGzip: chance(t, "resp-gzip", 1, 4),
+		ReqCT: rapid.SampledFrom(jsonMediaTypes).Draw(t, "req-ct"), RespCT: rapid.SampledFrom(jsonMediaTypes).Draw(t, "resp-ct")}
 }
 
 func gz(s string) string {
@@ -138,6 +146,18 @@ func collectorObfuscateVia(reqBody, respBody string, exclusions []string, tr tra
 	}
 	reqH := map[string]string{"content-type": "application/json", "authorization": "Bearer t", "name": "hdr-name"}
 	respH := map[string]string{"content-type": "application/json", "name": "hdr-name"}
+	for _, x := range []struct {
+		ct string
+		h  map[string]string
+	}{{tr.ReqCT, reqH}, {tr.RespCT, respH}} {
+		switch x.ct {
+		case "":
+		case "-":
+			delete(x.h, "content-type")
+		default:
+			x.h["content-type"] = x.ct
+		}
+	}
 	declared := 0
 	wire := func(body string, zip bool, cl string, h map[string]string) string {
 		if zip {
@@ -245,7 +265,10 @@ func TestHARCollectorBodies(t *testing.T) {
 			r.NonTrivial(ev.JSON(whole), func() any { return whole })
 		}
 		if tr != plainTransport {
-			r.Class("transport: size limit / content-length / gzip varied")
+			r.Class("transport: size limit / content-length / gzip / media type varied")
+			if tr.ReqCT != "" || tr.RespCT != "" {
+				r.Class("transport: a JSON body declared with another media type than application/json (or none)")
+			}
 			if len(rq.text) > tr.MaxSize || len(rp.text) > tr.MaxSize {
 				r.Class("transport: a body longer than the collector's size limit")
 			}
@@ -259,9 +282,9 @@ func TestHARCollectorBodies(t *testing.T) {
 			t.Fatalf("%s", r.Fail(whole, "har-collector: %v", err))
 		}
 		settle(t, r, judge(rq.text, out.req, rsReq, passReq),
-			bodyCase{Route: "har-collector request body", Side: "request", Doc: rq.text, Exclusions: excl, Output: out.req})
+			bodyCase{Route: "har-collector request body", Side: "request", Doc: rq.text, Exclusions: excl, Output: out.req, Transport: tr})
 		settle(t, r, judge(rp.text, out.resp, rsResp, passResp),
-			bodyCase{Route: "har-collector response body", Side: "response", Doc: rp.text, Exclusions: excl, Output: out.resp})
+			bodyCase{Route: "har-collector response body", Side: "response", Doc: rp.text, Exclusions: excl, Output: out.resp, Transport: tr})
 	})
 }
 
